@@ -81,6 +81,48 @@ func c12Value(h *H, kind int) (c object.PanObject, want bool) {
 		c, want = h.Eval(`{B: m{|| mark(50); 5}}`), false
 	case 17: // a value with no B at all
 		c, want = h.Eval(`BaseObj.bear({})`), false
+	default: // 18..25: descendants of built-in kinds that carry their OWN B: the user's B decides,
+		// never the built-in value (every conditional construct must consult it)
+		b := rt.Bool()
+		if b {
+			h.Set("flag", object.BuiltInTrue)
+		} else {
+			h.Set("flag", object.BuiltInFalse)
+		}
+		want = b
+		switch kind {
+		case 18: // typed Int descendant, any payload
+			h.Set("v", object.NewPanInt(rt.Int64()))
+			c = h.Eval(`Int.bear({B: m{|| mark(50); flag}}).new(v)`)
+		case 19: // child of an int value
+			h.Set("v", object.NewPanInt(rt.Int64()))
+			c = h.Eval(`v.bear({B: m{|| mark(50); flag}})`)
+		case 20: // typed Float descendant, any bit pattern
+			h.Set("v", object.NewPanFloat(rt.Float64()))
+			c = h.Eval(`Float.bear({B: m{|| mark(50); flag}}).new(v)`)
+		case 21: // typed Str descendant, empty or not
+			if rt.Bool() {
+				c = h.Eval(`Str.bear({B: m{|| mark(50); flag}}).new("")`)
+			} else {
+				c = h.Eval(`Str.bear({B: m{|| mark(50); flag}}).new("a")`)
+			}
+		case 22: // typed Arr descendant, empty or not
+			if rt.Bool() {
+				c = h.Eval(`Arr.bear({B: m{|| mark(50); flag}}).new([])`)
+			} else {
+				c = h.Eval(`Arr.bear({B: m{|| mark(50); flag}}).new([0])`)
+			}
+		case 23: // child of nil
+			c = h.Eval(`nil.bear({B: m{|| mark(50); flag}})`)
+		case 24: // B inherited from a grandparent object
+			c = h.Eval(`{B: m{|| mark(50); flag}}.bear.bear({a: 1})`)
+		case 25: // child of an empty / non-empty map
+			if rt.Bool() {
+				c = h.Eval(`%{}.bear({B: m{|| mark(50); flag}})`)
+			} else {
+				c = h.Eval(`%{1: 2}.bear({B: m{|| mark(50); flag}})`)
+			}
+		}
 	}
 	h.Set("c", c)
 	return
@@ -97,7 +139,7 @@ func H_C12_truth() {
 	h.Reset()
 
 	// the B property itself (kinds 14..17 have a non-boolean B or none: they count as false)
-	if kind < 14 {
+	if kind < 14 || kind >= 18 {
 		b := h.EvalNoPanic(`c.B`)
 		rt.Assert((b == object.BuiltInTrue) == want, "B must be true exactly for non-zero values")
 		rt.Assert(b == object.BuiltInTrue || b == object.BuiltInFalse, "B must yield a boolean")
